@@ -4,6 +4,7 @@ import PhpVerif.Gen.PrinterTab
 import PhpVerif.Model.Printer
 import PhpVerif.Lemmas.Traverse
 import PhpVerif.Lemmas.Rows
+import PhpVerif.Props.Actions
 /-
 C12 — Traversal presents every node exactly once, parents first, in source order.
 
@@ -68,5 +69,24 @@ example : exRoot.WF sch ∧ exRoot.nodes.Nodup ∧ traverse travF exRoot = [1, 2
   refine ⟨?_, by decide, by decide⟩
   simp only [exRoot, Tree.WF, wfSlots, wfForest, kidsOK]
   decide
+
+end PhpVerif.C12
+
+/-! ### no node object is reachable along two paths of a parsed tree -/
+namespace PhpVerif.C12
+open PhpVerif
+
+/-- In every translated production path of php7.y no right-hand-side value is stored twice; every
+    other node of the result is allocated by a composite literal of the action itself (a value that
+    is neither makes the path untranslatable, and the set of untranslatable paths is pinned by
+    Actions.assumed7).  By induction over reductions a parsed tree has no shared node — the
+    induction is not mechanised; the oracle walks real trees for pointer identity. -/
+theorem no_value_stored_twice7 (p : PathSum) (hp : p ∈ Gen.paths7) (hk : p.kind = 0 ∨ p.kind = 1)
+    (hn : (p.prod, p.path) ∉ Spec.knownFailing7) : p.used.Nodup :=
+  (Actions.paths7_facts p hp hk hn).linear
+
+theorem no_value_stored_twice5 (p : PathSum) (hp : p ∈ Gen.paths5) (hk : p.kind = 0 ∨ p.kind = 1)
+    (hn : (p.prod, p.path) ∉ Spec.knownFailing5) : p.used.Nodup :=
+  (Actions.paths5_facts p hp hk hn).linear
 
 end PhpVerif.C12
